@@ -70,6 +70,21 @@ def outcome(text):
         return ("syntax-error", None)
 
 
+def redundant_between(t, nxt):
+    """A space between two adjacent tokens is redundant iff it cannot be the separator the notation requires: next to
+    existing whitespace, after an opening / before a closing delimiter, or next to an operator. Between an axis, a
+    number or a closing delimiter and an opening delimiter (and between a closing delimiter and an axis) the space IS
+    the required separator ('1[]' is an error, '1 []' is not)."""
+    ops = {"->", ",", "+", " -> ", ", ", " + ", " "}
+    if t in ops or nxt in ops:
+        return True
+    if t[-1] in "([" and t in ("(", "["):
+        return True
+    if nxt in (")", "]"):
+        return True
+    return False
+
+
 def spacing_invariant(tokens, flags):
     """H3: doubling an existing space / adding a space next to punctuation never changes the outcome."""
     base = "".join(tokens)
@@ -80,7 +95,7 @@ def spacing_invariant(tokens, flags):
             nxt = tokens[i + 1]
             if "..." in (t, nxt):
                 continue  # 'a ...' and 'a...' are different expressions
-            if t in PUNCT or nxt in PUNCT:
+            if redundant_between(t, nxt):
                 parts.append(" ")
     variant = "".join(parts)
     if flags[len(tokens) - 1]:
